@@ -51,6 +51,17 @@ func (p *planner) analyzeScript() {
 	for i, ppl := range pipeline {
 		p.renewMainAfter[i] = i < len(pipeline)-1 &&
 			ppl.Parser != nil && pipeline[i+1].Parser == nil
+		// A label filter reads the `labels` alias of its own select. A later stage that
+		// rewrites that alias in the same select (parser, drop) would be seen by the filter
+		// written before it: close the select first.
+		if ppl.LabelFilter != nil && !p.simpleLabelOperation[i] {
+			for _, next := range pipeline[i+1:] {
+				if next.Parser != nil || next.Drop != nil || next.LabelFormat != nil {
+					p.renewMainAfter[i] = true
+					break
+				}
+			}
+		}
 	}
 
 	for _, ppl := range pipeline {
